@@ -86,7 +86,7 @@ func opsExec(raw json.RawMessage, hist []string, deep bool) *bfsResult {
 		b, _ := readFileMaybe(w.Dir, f)
 		disk = append(disk, fmt.Sprintf("%d:%x", len(b), keccak(b)[:6]))
 	}
-	res.Key = fmt.Sprintf("%s|now=%d|servers=%v|migr=%v|disk=%v", w.M.valueKey(), w.Now, srvs, migs, disk)
+	res.Key = fmt.Sprintf("%s|now=%d|servers=%v|migr=%v|disk=%v|armed=%s", w.M.valueKey(), w.Now, srvs, migs, disk, w.Armed)
 	res.Outcome = fmt.Sprintf("devs=%d bans=%d off=%d arch=%d reg=%v", len(w.M.Devices), len(w.M.Bans), w.M.Offset, len(w.M.Archive), w.M.Registered)
 	if !deep || !res.Expand {
 		return res
